@@ -663,6 +663,9 @@ func runFrame(fr *frame) {
 		if ea, ok := r.(engineAbort); ok {
 			panic(ea)
 		}
+		if gp, ok := r.(goroutinePanic); ok {
+			panic(gp) // a crash of another goroutine: no recover() of this goroutine can stop it
+		}
 		r = fr.i.classifyPanic(r, fr)
 		if fr.i.lastPanicWhere == "" {
 			fr.i.lastPanicWhere = fr.fn.String() + " " + fr.i.pos(fr)
